@@ -23,6 +23,7 @@ WRAPPERS = {
     "let": "let\n  v = 1;\nin\nSET\n",
     "let2": "let\n  u = 1;\n  v = 0;\nin\nlet\n  v = 2;\n  w = 3;\nin\nSET\n",
     "let2-notes": "let # outer note\n  u = 1;\n  v = 0;\nin\nlet # inner note\n  v = 2;\n  w = 3;\nin\nSET\n",
+    "let2-notes-single": "let # outer note\n  u = 1;\nin\nlet # inner note\n  v = 2;\n  w = 3;\nin\nSET\n",
     "let3": "let\n  u = 1;\nin\nlet # mid\n  v = 2;\nin\nlet\n  # about w\n  w = 3; # eol\nin\nSET\n",
     "with": "with pkgs;\nSET\n",
     "assert": "assert true;\nSET\n",
@@ -48,6 +49,8 @@ CONTENTS = {
     "attrpath-deep": "{\n  m.n.x = 1;\n  m.n.y = 2;\n  a = 1;\n}",
     # attrpath families that share more than their first segment (merged recursively at parse time)
     "attrpath-deep4": "{\n  s.n.v.m.a = true;\n  s.n.v.m.b = false;\n  s.n.w = 1;\n  k = 1;\n}",
+    # a family whose members are not written next to each other
+    "attrpath-interleaved": "{\n  s.n.a = 1;\n  s.h.a = 2;\n  s.n.p = 3;\n  k = 1;\n}",
     "twins": "{\n  z = 0;\n  a.enable = true;\n  b.enable = true;\n  enable = true;\n  m.x = 1;\n}",
     "twins-inline": "{ a.enable = true; b.enable = true; c.enable = true; }",
 }
@@ -56,7 +59,7 @@ PATHS = ["a.enable", "b.enable", "c.enable", "enable", "@lib.v", "@w.v", "a", "b
          # a scoped name that the attribute set body binds as well (the body must keep its text: C09)
          "@a", "@@a", "@m.x",
          # later members of deep attrpath families, fresh leaves in them, and the paths a mis-merged tree would answer to
-         "m.n.y", "m.y", "m.n.z", "s.n.v.m.b", "s.n.v.m.c", "s.n.v.b", "s.n.w"]
+         "m.n.y", "m.y", "m.n.z", "s.n.v.m.b", "s.n.v.m.c", "s.n.v.b", "s.n.w", "@@@u", "s.n.p", "s.h.a"]
 VALUES = ["2", '"s"', "[ 1 2 ]", "{ k = 1; }", "v", "{", "1 2", ""]
 
 
@@ -69,7 +72,7 @@ def documents(tier):
                 continue
             if c.startswith("twins") and w not in ("bare", "let", "let-twins", "lambda-call", "rec"):
                 continue
-            if c == "attrpath-deep4" and w not in ("bare", "let", "lambda-call", "rec", "lambda"):
+            if c in ("attrpath-deep4", "attrpath-interleaved") and w not in ("bare", "let", "lambda-call", "rec", "lambda"):
                 continue
             text = wt.replace("SET", ct)
             if w == "call" and c in ("inline", "empty"):
